@@ -15,10 +15,12 @@
 (***************************************************************************)
 EXTENDS Integers, Sequences, FiniteSets
 
-U8(b, off)  == b[off + 1]                                   \* off: 0-based byte offset
-U16(b, off) == b[off + 1] * 256 + b[off + 2]
+\* total byte access: outside the data reads 0 (a decode that runs past the end shows as `used > Len`)
+At(b, i)    == IF i \in 1..Len(b) THEN b[i] ELSE 0
+U8(b, off)  == At(b, off + 1)                                \* off: 0-based byte offset
+U16(b, off) == At(b, off + 1) * 256 + At(b, off + 2)
 I16(b, off) == LET v == U16(b, off) IN IF v >= 32768 THEN v - 65536 ELSE v
-I8(b, off)  == LET v == b[off + 1] IN IF v >= 128 THEN v - 256 ELSE v
+I8(b, off)  == LET v == At(b, off + 1) IN IF v >= 128 THEN v - 256 ELSE v
 
 \* ---- simple glyph flags -----------------------------------------------------
 ON == 1  XSHORT == 2  YSHORT == 4  REPEAT == 8  XSAME == 16  YSAME == 32  OVERLAP == 64
